@@ -56,7 +56,7 @@ impl Suite for Parse {
     }
     fn generate(&self, seed: u64, tier: &str) -> Vec<Case> {
         let mut r = Rng::new(seed ^ 0xC12_0001);
-        let n = if tier == "thorough" { 120_000 } else { 6_000 };
+        let n = if tier == "thorough" { 120_000 } else { 5_000 };
         let mut cases: Vec<Case> = PINNED.iter().map(|(c, t)| case_of(&crate::features::class_of(c, t), t)).collect();
         for _ in 0..n {
             let (class, text) = gen::any(&mut r);
